@@ -14,10 +14,11 @@ def doubleStr : List Stmt → Bool
 
 mutual
 /-- the region on which `DocTrans` is erase-preserving: no function body starts with two string expressions
-    (deleting the docstring would promote the second one), and — without type annotations — no bare
+    (deleting the docstring would promote the second one) or with a bare name / `None` expression statement
+    (`set_docstring` overwrites it), and — without type annotations — no bare
     declaration `x: T` (it is turned into the assignment `x = '```(None)```'`) -/
 def okStmt (ta : Bool) : Stmt → Bool
-  | .fn false _ _ b _ _ => !doubleStr b && okList ta b
+  | .fn false _ _ b _ _ => !doubleStr b && !(b.head?.map strLikeExpr).getD false && okList ta b
   | .fn true _ _ b _ _ => okList ta b
   | .cls _ _ _ b _ => okList ta b
   | .ann _ _ none => ta
@@ -46,7 +47,8 @@ theorem doubleStr_cons_cons (s t : Stmt) (rest : List Stmt) : doubleStr (s :: t 
 
 /-- the docstring surgery of `_handle_function` disappears under `erase` -/
 theorem eraseBodyList_setDoc (b b2 : List Stmt) (nd : Option String)
-    (he : eraseList b2 = eraseList b) (hs : b2.map isStr = b.map isStr) (hd : doubleStr b = false) :
+    (he : eraseList b2 = eraseList b) (hs : b2.map isStr = b.map isStr) (hl : b2.map strLikeExpr = b.map strLikeExpr)
+    (hd : doubleStr b = false) (hsl : (b.head?.map strLikeExpr).getD false = false) :
     eraseBodyList (setDoc b2 (docstringOf b) nd) = eraseBodyList b := by
   cases b with
   | nil =>
@@ -57,9 +59,11 @@ theorem eraseBodyList_setDoc (b b2 : List Stmt) (nd : Option String)
     cases b2 with
     | nil => simp at hs
     | cons s2 rest2 =>
-      simp only [List.map_cons, List.cons.injEq] at hs
+      simp only [List.map_cons, List.cons.injEq] at hs hl
       simp only [eraseList, List.cons.injEq] at he
+      simp only [List.head?_cons, Option.map_some, Option.getD_some] at hsl
       obtain ⟨hs1, hs2⟩ := hs
+      obtain ⟨hl1, _⟩ := hl
       obtain ⟨_, he2⟩ := he
       cases s with
       | strExpr t =>
@@ -94,6 +98,7 @@ theorem eraseBodyList_setDoc (b b2 : List Stmt) (nd : Option String)
       | _ =>
         all_goals (
           have hns2 : isStr s2 = false := by simpa [isStr] using hs1
+          have hnl2 : strLikeExpr s2 = false := by rw [hl1]; exact hsl
           have hdoc : ∀ (x : Stmt) (l : List Stmt), isStr x = false → docstringOf (x :: l) = none := by
             intro x l hx; cases x <;> simp_all [docstringOf, isStr]
           rw [hdoc _ _ (by simp [isStr])]
@@ -129,7 +134,7 @@ theorem eraseBodyList_congr (b b2 : List Stmt) (he : eraseList b2 = eraseList b)
 mutual
 theorem erase_docTransStmt (o : Oracle) (ta : Bool) :
     ∀ (s : Stmt) (p : List String) (s' : Stmt), okStmt ta s = true → docTransStmt o ta p s = .ok s' →
-      eraseStmt s' = eraseStmt s ∧ isStr s' = isStr s
+      eraseStmt s' = eraseStmt s ∧ isStr s' = isStr s ∧ strLikeExpr s' = strLikeExpr s
   | .fn false n g b d r, p, s', hok, h => by
     simp only [okStmt, Bool.and_eq_true, Bool.not_eq_true'] at hok
     simp only [docTransStmt, bind, Except.bind] at h
@@ -137,11 +142,11 @@ theorem erase_docTransStmt (o : Oracle) (ta : Bool) :
     | error x => simp [hb] at h
     | ok b2 =>
       simp only [hb, pure, Except.pure, Except.ok.injEq] at h
-      obtain ⟨he, hs⟩ := erase_docTransList o ta b (p ++ [n]) b2 hok.2 hb
+      obtain ⟨he, hs, hl⟩ := erase_docTransList o ta b (p ++ [n]) b2 hok.2 hb
       subst h
-      refine ⟨?_, rfl⟩
+      refine ⟨?_, rfl, rfl⟩
       simp only [eraseStmt, eraseArgs_rewriteArgs]
-      rw [eraseBodyList_setDoc b b2 _ he hs hok.1]
+      rw [eraseBodyList_setDoc b b2 _ he hs hl hok.1.1 hok.1.2]
   | .fn true n g b d r, p, s', hok, h => by
     simp only [okStmt] at hok
     simp only [docTransStmt, bind, Except.bind] at h
@@ -149,9 +154,9 @@ theorem erase_docTransStmt (o : Oracle) (ta : Bool) :
     | error x => simp [hb] at h
     | ok b2 =>
       simp only [hb, pure, Except.pure, Except.ok.injEq] at h
-      obtain ⟨he, hs⟩ := erase_docTransList o ta b (p ++ [n]) b2 hok hb
+      obtain ⟨he, hs, _⟩ := erase_docTransList o ta b (p ++ [n]) b2 hok hb
       subst h
-      refine ⟨?_, rfl⟩
+      refine ⟨?_, rfl, rfl⟩
       simp only [eraseStmt]
       rw [eraseBodyList_congr b b2 he hs]
   | .cls n bs ks b d, p, s', hok, h => by
@@ -161,9 +166,9 @@ theorem erase_docTransStmt (o : Oracle) (ta : Bool) :
     | error x => simp [hb] at h
     | ok b2 =>
       simp only [hb, pure, Except.pure, Except.ok.injEq] at h
-      obtain ⟨he, hs⟩ := erase_docTransList o ta b (p ++ [n]) b2 hok hb
+      obtain ⟨he, hs, _⟩ := erase_docTransList o ta b (p ++ [n]) b2 hok hb
       subst h
-      refine ⟨?_, rfl⟩
+      refine ⟨?_, rfl, rfl⟩
       simp only [eraseStmt]
       rw [eraseBodyList_congr b b2 he hs]
   | .ann t a v, p, s', hok, h => by
@@ -172,40 +177,40 @@ theorem erase_docTransStmt (o : Oracle) (ta : Bool) :
     | true =>
       simp only [if_true, pure, Except.pure, Except.ok.injEq] at h
       subst h
-      cases v <;> simp [eraseStmt, isStr]
+      cases v <;> simp [eraseStmt, isStr, strLikeExpr]
     | false =>
       cases v with
       | none => simp [okStmt] at hok
       | some x =>
         simp only [Bool.false_eq_true, if_false, pure, Except.pure, Except.ok.injEq, Option.getD_some] at h
         subst h
-        simp [eraseStmt, isStr]
+        simp [eraseStmt, isStr, strLikeExpr]
   | .assign ts v, p, s', _, h => by
     simp only [docTransStmt] at h
     split at h
     · split at h
       · simp only [pure, Except.pure, Except.ok.injEq] at h
         subst h
-        simp [eraseStmt, isStr]
+        simp [eraseStmt, isStr, strLikeExpr]
       · simp at h
     · simp only [pure, Except.pure, Except.ok.injEq] at h
       subst h
-      simp [eraseStmt, isStr]
+      simp [eraseStmt, isStr, strLikeExpr]
   | .strExpr x, p, s', _, h => by
     simp only [docTransStmt, pure, Except.pure, Except.ok.injEq] at h
-    subst h; exact ⟨rfl, rfl⟩
+    subst h; exact ⟨rfl, rfl, rfl⟩
   | .expr x, p, s', _, h => by
     simp only [docTransStmt, pure, Except.pure, Except.ok.injEq] at h
-    subst h; exact ⟨rfl, rfl⟩
+    subst h; exact ⟨rfl, rfl, rfl⟩
   | .other x, p, s', _, h => by
     simp only [docTransStmt, pure, Except.pure, Except.ok.injEq] at h
-    subst h; exact ⟨rfl, rfl⟩
+    subst h; exact ⟨rfl, rfl, rfl⟩
 theorem erase_docTransList (o : Oracle) (ta : Bool) :
     ∀ (l : List Stmt) (p : List String) (l' : List Stmt), okList ta l = true → docTransList o ta p l = .ok l' →
-      eraseList l' = eraseList l ∧ l'.map isStr = l.map isStr
+      eraseList l' = eraseList l ∧ l'.map isStr = l.map isStr ∧ l'.map strLikeExpr = l.map strLikeExpr
   | [], p, l', _, h => by
     simp only [docTransList, pure, Except.pure, Except.ok.injEq] at h
-    subst h; exact ⟨rfl, rfl⟩
+    subst h; exact ⟨rfl, rfl, rfl⟩
   | s :: ss, p, l', hok, h => by
     simp only [okList, Bool.and_eq_true] at hok
     simp only [docTransList, bind, Except.bind] at h
@@ -218,9 +223,9 @@ theorem erase_docTransList (o : Oracle) (ta : Bool) :
       | ok ss' =>
         simp only [hss, pure, Except.pure, Except.ok.injEq] at h
         subst h
-        obtain ⟨h1, h2⟩ := erase_docTransStmt o ta s p s' hok.1 hs
-        obtain ⟨h3, h4⟩ := erase_docTransList o ta ss p ss' hok.2 hss
-        simp [eraseList, h1, h2, h3, h4]
+        obtain ⟨h1, h2, h2'⟩ := erase_docTransStmt o ta s p s' hok.1 hs
+        obtain ⟨h3, h4, h4'⟩ := erase_docTransList o ta ss p ss' hok.2 hss
+        simp [eraseList, h1, h2, h2', h3, h4, h4']
 end
 
 end DocTransAst
